@@ -35,11 +35,11 @@ type C09Mut struct {
 }
 
 type C09Reader struct {
-	Chunks    []int `json:"chunks,omitempty"`
-	EOFWithData bool `json:"eofWithData,omitempty"`
-	ErrAt     int   `json:"errAt,omitempty"` // -1/0 with ErrSet=false: none
-	ErrSet    bool  `json:"errSet,omitempty"`
-	ZeroReads int   `json:"zeroReads,omitempty"`
+	Chunks      []int `json:"chunks,omitempty"`
+	EOFWithData bool  `json:"eofWithData,omitempty"`
+	ErrAt       int   `json:"errAt,omitempty"` // -1/0 with ErrSet=false: none
+	ErrSet      bool  `json:"errSet,omitempty"`
+	ZeroReads   int   `json:"zeroReads,omitempty"`
 }
 
 type C09Case struct {
@@ -62,8 +62,8 @@ type c09 struct{}
 
 func init() { register(&c09{}) }
 
-func (*c09) ID() string                      { return "C09" }
-func (*c09) Level() string                   { return "exploration" }
+func (*c09) ID() string                     { return "C09" }
+func (*c09) Level() string                  { return "exploration" }
 func (*c09) Decode(raw []byte) (any, error) { return decodeInto[C09Scenario](raw) }
 
 var c09Fixtures = []string{"RFC5322-A1-1.eml", "RFC5322-A1-1-invalid-from.eml", "invoice.eml"}
@@ -456,12 +456,12 @@ func (p *c09) Shrink(scAny any) []any {
 
 func (p *c09) Info() PropInfo {
 	return PropInfo{
-		Rule: "per stored message (80% renderings of generated messages incl. awkward file names, 10% fixtures of /repo/testdata, 10% random bytes) 250 (thorough: 300) seeded cases, each = 0..3 storage faults {truncate, torn write with a second message, lost range, duplicated range, zeroed block, byte flip, bit flip, CRLF->LF from an offset, emptied parameter value, inserted token, header field value replaced by a degenerate one (empty groups, lone separators, half-finished parameters, ...)} at offsets biased (3:1) to positions next to ; = \" : - < > / , CR LF, read back through EMLToMsgFromReader with a reader of drawn chunking / (n>0, EOF) / error at an offset / (0,nil) runs, or through EMLToMsgFromString / EMLToMsgFromFile; evaluations = parses; distinct = distinct stored messages",
-		Assumptions: []string{"termination is judged by a 10 s wall-clock watchdog per parse of at most a few KiB, re-checked once before it is reported", "no statement about the value returned"},
-		Real:        []string{"go-mail eml.go (all three entry points) and the Msg setters it calls", "net/mail, mime, mime/multipart, mime/quotedprintable"},
-		Stubbed:     []string{"stored bytes (fault-injected)", "io.Reader (fault-injecting)", "corpus rendering runs on a virtual clock with seeded randomness"},
-		Exhaustive:  func(string) bool { return false },
+		Rule:            "per stored message (80% renderings of generated messages incl. awkward file names, 10% fixtures of /repo/testdata, 10% random bytes) 250 (thorough: 300) seeded cases, each = 0..3 storage faults {truncate, torn write with a second message, lost range, duplicated range, zeroed block, byte flip, bit flip, CRLF->LF from an offset, emptied parameter value, inserted token, header field value replaced by a degenerate one (empty groups, lone separators, half-finished parameters, ...)} at offsets biased (3:1) to positions next to ; = \" : - < > / , CR LF, read back through EMLToMsgFromReader with a reader of drawn chunking / (n>0, EOF) / error at an offset / (0,nil) runs, or through EMLToMsgFromString / EMLToMsgFromFile; evaluations = parses; distinct = distinct stored messages",
+		Assumptions:     []string{"termination is judged by a 10 s wall-clock watchdog per parse of at most a few KiB, re-checked once before it is reported", "no statement about the value returned"},
+		Real:            []string{"go-mail eml.go (all three entry points) and the Msg setters it calls", "net/mail, mime, mime/multipart, mime/quotedprintable"},
+		Stubbed:         []string{"stored bytes (fault-injected)", "io.Reader (fault-injecting)", "corpus rendering runs on a virtual clock with seeded randomness"},
+		Exhaustive:      func(string) bool { return false },
 		HangIsViolation: true,
-		QuickBudget: 100 * time.Second, ThoroughBudget: 25 * time.Minute,
+		QuickBudget:     100 * time.Second, ThoroughBudget: 25 * time.Minute,
 	}
 }
